@@ -2963,6 +2963,24 @@ where
     where
         K::Scalar: CoordinateScalar,
     {
+        // Refuse non-finite coordinates before any state change. With cells present the
+        // predicates would report them, but during the bootstrap phase (fewer than D+1
+        // vertices) nothing else looks at the coordinates and the vertex would be stored,
+        // after which the initial simplex can never be built.
+        let has_non_finite =
+            |coords: &[K::Scalar; D]| coords.iter().any(|c| !num_traits::Float::is_finite(*c));
+        if has_non_finite(vertex.point().coords()) {
+            return Err(InsertionError::Construction(
+                TriangulationConstructionError::GeometricDegeneracy {
+                    message: format!(
+                        "Vertex {} has non-finite coordinates {:?}",
+                        vertex.uuid(),
+                        vertex.point().coords()
+                    ),
+                },
+            ));
+        }
+
         let mut stats = InsertionStatistics::default();
         let original_coords = *vertex.point().coords();
         let original_uuid = vertex.uuid();
@@ -3039,6 +3057,16 @@ where
                 // to retry with perturbed coordinates.
                 current_vertex =
                     Vertex::new_with_uuid(Point::new(perturbed_coords), original_uuid, vertex.data);
+            }
+
+            // At extreme magnitudes the local-scale perturbation can overflow to infinity/NaN;
+            // never let such coordinates through (see the entry check above).
+            if attempt > 0 && has_non_finite(current_vertex.point().coords()) {
+                stats.result = InsertionResult::SkippedDegeneracy;
+                let error = last_retryable_error.unwrap_or_else(|| InsertionError::CavityFilling {
+                    message: "Perturbation produced non-finite coordinates".to_string(),
+                });
+                return Ok((InsertionOutcome::Skipped { error }, stats));
             }
 
             // Duplicate coordinate detection uses the hash grid when available; otherwise it
